@@ -16,8 +16,10 @@ package parser
 // yyParser (the generated driver overwrites lval and re-slices its stack before reading),
 // lastClosing (written by the constructors, never read), inject (read only while `injecting`
 // is set, and InjectItem sets both).
+// the text that is lexed, and the text positions are looked up in, is the text the caller handed in - byte for byte
+// (offsets recorded in the tree are offsets into the caller's text): also carried by C05 and C17
 //@ func newParser
-//@ props C15
+//@ props C15 C17 C05
 //@ overwrites result -yyParser -lastClosing -inject
 //@ ensures result != nil ==> !result.injecting && len(result.errs) == 0 && len(result.parseResult) == 0
 //@ ensures result != nil ==> result.lex.input == input && result.lex.pos == 0 && result.lex.start == 0 && result.lex.width == 0 && result.lex.lastPos == 0
